@@ -197,12 +197,12 @@ def _scan_harnesses():
             rest = n[len('misc_' + kind + '_'):]
             unit = None
             for key, u in (('cfbbuf', 'cfb'), ('cfb8', 'cfb8'), ('cfb', 'cfb'), ('pcbc', 'pcbc'), ('cbc', 'cbc'), ('ige', 'ige'),
-                           ('ofb', 'ofb'), ('ctr', 'ctr'), ('belt', 'belt')):
+                           ('ofb', 'ofb'), ('ctr', 'ctr'), ('belt', 'belt'), ('w', 'belt')):
                 if rest.startswith(key):
                     unit = u
                     break
             info = {'units': [unit] if unit else [], 'kani': False,
-                    'props': {'debug': ['C17'], 'drop': ['C17'], 'clone': ['C16', 'C01'], 'indep': ['C16'], 'resume': ['C09', 'C14', 'C01'], 'parks': ['C07', 'C01', 'C04', 'C06', 'C03', 'C09', 'C10'], 'remaining': ['C10', 'C11', 'C06', 'C13'], 'padded': ['C01', 'C13', 'C14']}.get(kind, []),
+                    'props': {'debug': ['C17'], 'drop': ['C17'], 'clone': ['C16', 'C01'], 'indep': ['C16'], 'resume': ['C09', 'C14', 'C01'], 'parks': ['C07', 'C01', 'C04', 'C06', 'C03', 'C09', 'C10'], 'remaining': ['C10', 'C11', 'C06', 'C13'], 'padded': ['C01', 'C13', 'C14'], 'beltdef': ['C06', 'C01', 'C07', 'C08', 'C10', 'C14']}.get(kind, []),
                     'bounds': {'debug': 'Debug text of two instances with different key / IV / history / position is equal (native random search, toy invertible cipher)',
                                'drop': 'feature zeroize: after drop no 8-byte window of the exported state is left in the object storage (native, 16-byte toy cipher)',
                                'clone': 'clone after a random history; original and clone interleaved equal two fresh replays, incl. positions and seeks (native)',
@@ -210,6 +210,7 @@ def _scan_harnesses():
                                'parks': 'keystream of up to 7 blocks through the backend\'s parallel entry point (any width incl. 1) == block-at-a-time keystream, same generator state afterwards (native, toy invertible cipher)',
                                'remaining': 'core positioned anywhere in the counter range (around 0, 2^32, 2^64, the end): position read-back exact, remaining_blocks() exact or None only if unrepresentable, one more block advances the position by one (native)',
                                'padded': 'padded front-ends (dependency code over the repo mode): encrypt_padded_b2b Ok iff room, = block encryption of the padded message, decrypt_padded_b2b inverts it, lengths not a multiple of the block size rejected without writing, IV slice length check (native, toy invertible cipher, Pkcs7 / Iso7816)',
+                               'beltdef': 'BelT-CTR keystream against its definition E(le128((s0 + i) mod 2^128)) with s0 placed at 2^32 / 2^64 / 2^96 / 2^128 boundaries, single blocks then the parallel entry point, widths 1-3 (native, invertible toy cipher)',
                                'resume': 'export at a random cut (block / byte), import into a fresh instance, continue == uninterrupted run; encryptor and decryptor states equal; public chaining value (native, toy invertible cipher)'}.get(kind, n)}
         out[n] = info
     out.update(HARNESS_OVERRIDES)
